@@ -503,7 +503,7 @@ func genC02(c *Ctx) {
 }
 
 func genC03(c *Ctx) {
-	n := c.Scale(6000, 600000)
+	n := c.Scale(4000, 200000)
 	for k := 0; k < n; k++ {
 		p := randomPosition(c.R)
 		classifyPos(c, p)
